@@ -61,6 +61,19 @@ CHECKS["C04"] = dict(
    technique="Lean 4 proof (slot invariant by induction over monitor events; guard theorems) + trace-replay correspondence with the real daemon under a simulated libc",
    design="DESIGN.md §2 C03/C04, Appendix A")
 
+CHECKS["C16"] = dict(
+   text="Theorem over ALL interleavings of any number of injectors with the daemon (inductive invariant of the Lean acceptor of the trigger protocol: link todo, open/write/close of the FIFO vs "
+        "trigger_set's close/reopen, opendir, readdir): whenever the daemon is outside a todo scan and an injector has completed its publish-then-signal steps for an unprocessed entry, the trigger "
+        "descriptor is readable; otherwise a re-arm is in progress or the open scan will still return the entry; a scan ends only when it returned everything it covers; trigger_set precedes opendir and "
+        "link precedes the pull. Tied to the code by running the real qmail-queue (2 instances), qmail-send and qmail-clean as threads under an in-memory POSIX simulator with every interleaving of the "
+        "trigger-related system calls enumerated for one injector and enumerated/sampled for two (both readdir semantics), each trace replayed through the acceptor; the oracle fails if the real daemon ever "
+        "sleeps with a completed injection unprocessed. Second leg: in 400/8000 daemon histories no select(timeout 0) spin occurs.",
+   note=NOTE_COMMON + "Modelled, not verified: FIFO semantics of DESIGN.md 1.4 as implemented by harness/sim.c; the periodic rescan is outside the model; 'never sleeps past its earliest due event' is "
+        "covered for the wake-up computation by C15_wakeup (pass_selprep) and by the sleeping-with-unprocessed-todo oracle, not by a theorem over the whole select-preparation chain; liveness of the scan is stated as "
+        "'closedir only when everything was returned', not as a bounded-steps theorem.",
+   technique="Lean 4 proof (inductive invariant over unbounded interleavings) + systematic schedule enumeration of the real programs under a simulated libc, traces replayed through the acceptor",
+   design="DESIGN.md §2 C16, Appendix C")
+
 exec(open(os.path.join(VERIF, "tools", "manifest_entries.py")).read())
 
 PENDING = {}
